@@ -132,7 +132,9 @@ def generate(rng, prop, tier):
             if rng.random() < 0.6:
                 skew = rng.choice([-1, 1, -acct["period"], acct["period"], rng.randint(-90, 90), rng.randint(-5, 5)])
             devices.append({"acct": a, "skew": skew,
-                            "form": rng.choice(["uri", "json", "dict", "pretty_b32", "pretty_hex", "raw"]),
+                            "form": rng.choice(["uri", "json", "dict", "pretty_b32", "pretty_hex", "raw", "uri_args", "lib_pretty"]),
+                        "direct": rng.random() < 0.4, "sep": rng.choice(["-", " ", False]), "kfmt": rng.choice(["base32", "hex", "base16"]),
+                        "alt_label": rng.choice(["bob@example.org", "Ann Lee", "u/1&x=2", "ü@ö.example"]), "alt_issuer": rng.choice([None, "Example Corp", "a&b=c"]),
                             "deco": rng.choice(["none", "lower", "spaces", "dashes", "pad", "mixed"]),
                             "factory": rng.choice(["stock", "same"])})
     for d in devices:
@@ -416,12 +418,18 @@ class _World:
                 del exp["issuer"]
         return exp
 
-    def _provision(self, dev, form, deco, factory, check):
+    def _provision(self, dev, form, deco, factory, check, op=None):
         ctx = self.ctx
+        op = op or {}
         acct = self.accounts[dev["cfg"]["acct"]]
         a = acct["cfg"]
         src = acct["totp"]
-        if form == "uri" and not a["label"]:
+        override = None
+        if form == "uri_args":
+            # to_uri(label=..., issuer=...): explicit arguments take the place of the object's own label / issuer
+            form = "uri"
+            override = {"label": op.get("alt_label", "bob@example.org"), "issuer": op.get("alt_issuer")}
+        if form == "uri" and not a["label"] and not override:
             form = "json"
         if factory == "same":
             fac = self._factory(a, dev["clock"])
@@ -430,9 +438,17 @@ class _World:
         with warnings.catch_warnings(record=True):
             warnings.simplefilter("always")
             if form in ("uri", "json", "dict"):
-                msg = self._serialise(src, form)
+                if override:
+                    try:
+                        msg = src.to_uri(**{k: v for k, v in override.items() if v is not None})
+                    except Exception as e:
+                        ctx.fail("C15", "roundtrip-raises", f"to_uri({override}) raised {type(e).__name__}: {e}", form="uri_args", exc=type(e).__name__)
+                else:
+                    msg = self._serialise(src, form)
+                # the format's own loader, or the generic one
+                loader = {"uri": fac.from_uri, "json": fac.from_json, "dict": fac.from_dict}[form] if op.get("direct") else fac.from_source
                 try:
-                    obj = fac.from_source(msg)
+                    obj = loader(msg)
                 except Exception as e:
                     ctx.fail("C15", "roundtrip-raises", f"{form}: from_source({msg!r}) raised {type(e).__name__}: {e}",
                              form=form, exc=type(e).__name__)
@@ -444,6 +460,11 @@ class _World:
                     fmt = "base32"
                     if ctx.n_ops % 3 == 1:
                         k = k.encode("ascii")
+                elif form == "lib_pretty":
+                    # the library's own pretty-printer (format x separator) must give something its constructor reads back
+                    kf = op.get("kfmt", "base32")
+                    k = src.pretty_key(format=kf, sep=op.get("sep", "-"))
+                    fmt = "hex" if kf in ("hex", "base16") else "base32"
                 elif form == "pretty_hex":
                     k = src.hex_key
                     if deco in ("lower",):
@@ -465,6 +486,10 @@ class _World:
         if not check:
             return
         exp = self._expect_fields(acct, form, factory)
+        if override:
+            exp["label"] = override["label"]
+            if override["issuer"] is not None:
+                exp["issuer"] = override["issuer"]
         cls_defaults = a.get("factory") or {}
         for name, want in exp.items():
             got = getattr(obj, name)
@@ -1033,7 +1058,7 @@ def execute(program, ctx):
             w.restart(op)
         elif k == "provision":
             if op["dev"] < len(w.devices):
-                w._provision(w.devices[op["dev"]], op["form"], op["deco"], op["factory"], check=True)
+                w._provision(w.devices[op["dev"]], op["form"], op["deco"], op["factory"], check=True, op=op)
         elif k == "hostile":
             w.hostile(op)
         elif k == "rekey":
